@@ -348,6 +348,33 @@ class SR:
     def __bool__(self): return ENG.branch(self.e != 0)
     def logical_not(self): return SB(self.e == 0)
     def __repr__(self): return f'SR({z3.simplify(self.e)})'
+
+    def _concrete(self):
+        """value of this term if the path condition determines it uniquely (e.g. a 0/1 status after
+        the branches taken); otherwise the path is aborted as inconclusive -- never a guessed value"""
+        e = z3.simplify(self.e)
+        if z3.is_rational_value(e):
+            return e.as_fraction()
+        s = ENG.solver
+        s.push()
+        s.add(*ENG.base, *ENG.pc, *ENG.defs)
+        ENG.queries += 1
+        if s.check() != z3.sat:
+            s.pop()
+            raise Infeasible()
+        v = s.model().eval(e, model_completion=True)
+        s.add(e != v)
+        ENG.queries += 1
+        r = s.check()
+        s.pop()
+        if r != z3.unsat or not z3.is_rational_value(v):
+            raise Abort('a symbolic value had to be stored into a numeric (non-object) array but is not determined '
+                        'by the path condition')
+        return v.as_fraction()
+
+    def __float__(self): return float(self._concrete())
+    def __int__(self): return int(self._concrete())
+    def __index__(self): return int(self._concrete())
     __hash__ = None
 
 
